@@ -143,7 +143,14 @@ func VerifC09_Step() {
 // VerifC09_Hist: from the real constructor: one datapoint of a symbolic type at time T, then
 // three flushes at non-decreasing times; the series must be reported exactly until (and
 // including) the first flush more than its type's expiry after T.
-func VerifC09_Hist() {
+func VerifC09_Hist() { verifC09Hist(3, false) }
+
+// longer histories, and histories in which a second datapoint arrives between two flushes
+// (the expiry then counts from that one; an expired series is created again)
+func VerifC09_Hist5()      { verifC09Hist(5, false) }
+func VerifC09_HistResend() { verifC09Hist(4, true) }
+
+func verifC09Hist(flushes int, resend bool) {
 	typ := nondetIntIn(0, 3)
 	e := nondetInt64()
 	other := nondetInt64()
@@ -173,10 +180,37 @@ func VerifC09_Hist() {
 	default:
 		mm.Sets["k"] = map[string]gostatsd.Set{"": {Values: map[string]struct{}{"m": {}}, Timestamp: gostatsd.Nanotime(T)}}
 	}
+	mk := func(ts int64) *gostatsd.MetricMap {
+		m2 := gostatsd.NewMetricMap(false)
+		switch typ {
+		case 0:
+			m2.Counters["k"] = map[string]gostatsd.Counter{"": {Value: 5, Timestamp: gostatsd.Nanotime(ts)}}
+		case 1:
+			m2.Gauges["k"] = map[string]gostatsd.Gauge{"": {Value: 5, Timestamp: gostatsd.Nanotime(ts)}}
+		case 2:
+			m2.Timers["k"] = map[string]gostatsd.Timer{"": {Values: []float64{5}, SampledCount: 1, Timestamp: gostatsd.Nanotime(ts)}}
+		default:
+			m2.Sets["k"] = map[string]gostatsd.Set{"": {Values: map[string]struct{}{"m": {}}, Timestamp: gostatsd.Nanotime(ts)}}
+		}
+		return m2
+	}
 	a.ReceiveMap(mm)
 	prev := T
 	alive := true // spec: not yet expired by an earlier flush
-	for i := 0; i < 3; i++ {
+	resendAt := -1
+	if resend {
+		resendAt = nondetIntIn(1, flushes-1)
+	}
+	fresh := false // a datapoint arrived since the previous flush
+	for i := 0; i < flushes; i++ {
+		if i == resendAt {
+			T2 := nondetInt64In(0, verifTmax-1)
+			verifAssume(T2 >= prev)
+			prev, T = T2, T2
+			a.ReceiveMap(mk(T2))
+			alive, fresh = true, true
+			verifReach("resent")
+		}
 		ti := nondetInt64In(0, verifTmax-1)
 		verifAssume(ti >= prev)
 		prev = ti
@@ -188,7 +222,7 @@ func VerifC09_Hist() {
 		switch typ {
 		case 0:
 			got = seen.counter
-			if got && i > 0 {
+			if got && i > 0 && !fresh {
 				verifAssert(seen.cVal == 0 && seen.cRate == 0, "history: idle counter reported as 0")
 			}
 		case 1:
@@ -198,15 +232,16 @@ func VerifC09_Hist() {
 			}
 		case 2:
 			got = seen.timer
-			if got && i > 0 {
+			if got && i > 0 && !fresh {
 				verifAssert(seen.tCount == 0, "history: idle timer count 0")
 			}
 		default:
 			got = seen.set
-			if got && i > 0 {
+			if got && i > 0 && !fresh {
 				verifAssert(seen.sLen == 0, "history: idle set empty")
 			}
 		}
+		fresh = false
 		verifAssert(got == alive, "history: series reported exactly until the first flush more than the expiry after its last datapoint")
 		if alive && verifExpiredSpec(e, ti, T) {
 			alive = false
